@@ -3,8 +3,8 @@
     sexp_grow_heap, sexp_alloc of gc.c).  [Inv]: coq/C10/Spec.v — every segment starts with the zero-size
     sentinel and is tiled EXACTLY by free-list nodes and objects, the free list is strictly increasing,
     coalesced (no two chunks adjacent), sizes positive and aligned, all mark bits clear. *)
-From Coq Require Import ZArith List.
-From ChibiV Require Import Gen.C10_Consts C10.Model C10.Spec C10.Proofs C10.Sweep C10.Theorems.
+From Coq Require Import ZArith List Permutation.
+From ChibiV Require Import Gen.C10_Consts C10.Model C10.Spec C10.Proofs C10.Sweep C10.Theorems C10.More C10.Examples.
 Import ListNotations.
 Local Open Scope Z_scope.
 
@@ -74,3 +74,26 @@ Theorem no_growth_when_fits : forall st size mss st1 mf sf,
   exists i o st3, try_alloc st1 size = Some (i, o, st3) /\ fst (alloc st size mss) = st3.
 Proof. exact no_growth_when_fits_lemma. Qed.
 Print Assumptions no_growth_when_fits.
+
+(** the block sexp_try_alloc returns held no object: afterwards the chosen heap's objects are the old ones,
+    unchanged, plus the new one (and by try_alloc_inv they still tile the heap: no overlap) *)
+Theorem try_heap_fresh : forall h size o h',
+  0 < size -> (unit_sz | size) -> heap_inv h -> try_heap h size = Some (o, h') ->
+  Permutation (heap_objs h') ((o, size, false) :: heap_objs h).
+Proof. exact try_heap_fresh_lemma. Qed.
+Print Assumptions try_heap_fresh.
+
+(** max_freed >= size after the sweep of a heap => a chunk that fits is on its free list *)
+Theorem max_freed_fits : forall h sf h' mf' sf' size, heap_inv h -> sweep_heap h 0 sf = Some (h', mf', sf') ->
+  0 < size -> size <= mf' -> exists n, In n (tl (hnodes h')) /\ size <= nsize n.
+Proof. exact max_freed_fits_lemma. Qed.
+Print Assumptions max_freed_fits.
+
+(** PARTIAL (see C10/More.v): the bound holds for histories satisfying [hist_ok L]; deriving [hist_ok] from
+    "live data <= L" is the missing fragmentation argument. *)
+Theorem heap_bounded_partial : forall L st0 ops,
+  Inv st0 -> Forall req_ok ops -> hist_ok L st0 ops ->
+  ratio_num * total_size (fold_left step ops st0)
+  <= Z.max (ratio_num * total_size st0) ((1 + factor_num) * ratio_den * L).
+Proof. exact heap_bounded_partial_lemma. Qed.
+Print Assumptions heap_bounded_partial.
